@@ -100,6 +100,7 @@ func runC13(c *engine.Ctx, tier string) {
 	wholeStringValidity(c)
 	// (4) addressing
 	addressing(c, sp, err)
+	getTargetPrecedence(c)
 	targetResolution(c)
 	operationChecks(c)
 	transactionBuilt(c)
@@ -1036,6 +1037,76 @@ func ownKeyCompared(c *engine.Ctx) {
 			o.Fail(&engine.Violation{Key: "utils/path.CheckKeyValue|key leaf accepted without its own key", Pos: c.P.Pos(last.Pos), Func: p.Root.Name(),
 				Msg: "a key leaf is accepted on a path that did not compare it with a key of the element directly above it (compared with: " + c.Render(whole) + "): an outer list's key of the same name vouches for it"})
 			return
+		}
+	}
+}
+
+// getTargetPrecedence: C13.16 — Get resolves the target of a path as Set and Subscribe do (finding F61): wherever
+// the own target of a request path is *used* (handed to a call, used as a key, stored), the path condition says
+// that the prefix names no target. Tests of the own target (== "", == "*") are not uses.
+func getTargetPrecedence(c *engine.Ctx) {
+	o := c.Custom("C13.16", "K-sibling(target precedence)", "in Server.processRequest and Server.processStateOrOperationalRequest the own target of a request path is used only on paths on which the prefix target is empty (or there is no prefix)",
+		"the prefix target overrides per-path targets: a Get names the same target as the Set with the same addressing")
+	defer o.Done(2)
+	own := func(s string) bool {
+		i := strings.Index(s, "elem({$GetRequest}gnmi.GetRequest.GetPath())")
+		if i < 0 {
+			return false
+		}
+		rest := s[i+len("elem({$GetRequest}gnmi.GetRequest.GetPath())"):]
+		return strings.HasPrefix(rest, ".Target") || strings.HasPrefix(rest, "}gnmi.Path.GetTarget()")
+	}
+	prefixTarget := func(s string) bool {
+		return strings.Contains(s, "gnmi.GetRequest.GetPrefix()") && (strings.Contains(s, ".Target") || strings.Contains(s, "gnmi.Path.GetTarget()"))
+	}
+	for _, root := range []string{".Server.processRequest", ".Server.processStateOrOperationalRequest"} {
+		gp, err := c.A.PathsOpt(pkgNbGnmi, engine.PathOpts{Roots: []string{root}, NoInline: true})
+		if err != nil {
+			o.Undecided(root, err.Error())
+			continue
+		}
+		uses := 0
+		reported := map[string]bool{}
+		for _, p := range gp {
+			for i := range p.Events {
+				e := &p.Events[i]
+				used := false
+				switch e.Kind {
+				case engine.EvCall:
+					if e.CalleeName == "config/v2.TargetID" || strings.HasSuffix(e.CalleeName, "gnmi.Path.GetTarget") {
+						continue // the conversion / getter itself
+					}
+					for _, a := range e.Args {
+						used = used || own(a)
+					}
+				case engine.EvWrite:
+					used = own(e.LHS) || own(e.RHS)
+				}
+				if !used {
+					continue
+				}
+				uses++
+				o.Eval(1)
+				ok := false
+				for _, l := range engine.CondsBefore(p, i) {
+					if prefixTarget(l.L) && l.R == `""` && l.Mask == 2 {
+						ok = true
+					}
+					if strings.HasSuffix(l.L, "gnmi.GetRequest.GetPrefix()") && l.RNil && l.Mask == 2 {
+						ok = true
+					}
+				}
+				if !ok && !reported[c.P.Pos(e.Pos)] {
+					reported[c.P.Pos(e.Pos)] = true
+					o.Fail(&engine.Violation{Key: strings.TrimPrefix(root, ".") + "|own target used without consulting the prefix target", Pos: c.P.Pos(e.Pos), Func: p.Root.Name(),
+						Msg: "the own target of a request path is used on a path that does not establish that the prefix target is empty: Get lets the path's target win where Set and Subscribe let the prefix win"})
+				}
+			}
+		}
+		if uses > 0 {
+			o.Site(strings.TrimPrefix(root, ".") + ": own path target used under 'prefix target empty' only")
+		} else {
+			o.Undecided(root, "anchor not found: the own target of a request path is not used in "+root)
 		}
 	}
 }
